@@ -699,6 +699,9 @@ func TabIndexPair(p *load.Program) *report.RuleResult {
 				name := p.FuncName(fn)
 				what := tn + " built with symbols/index"
 				by := indexPairOK(p, symV, idxV)
+				if by == "" && symV != nil && idxV == nil {
+					by = lazyIndexOK(p, tn)
+				}
 				if by != "" {
 					r.OK(name, instrPos(p, al), what, by)
 				} else {
@@ -823,4 +826,82 @@ func copySource(v ssa.Value, field string, depth int) string {
 		return src
 	}
 	return ""
+}
+
+// lazyIndexOK accepts a table built without an index when the type builds it
+// on first use: somewhere a store x.index = buildIndex(x.symbols, _) is taken
+// only when x.index is nil, every other store to the field is of that kind,
+// and the field is read only in functions that contain such a store.
+func lazyIndexOK(p *load.Program, tn string) string {
+	inits := map[*ssa.Function]bool{}
+	okAll := true
+	var readers []*ssa.Function
+	for _, fn := range sortedFuncs(p) {
+		if p.InTest(fn) || fn.Pkg != p.Ion {
+			continue
+		}
+		for _, b := range fn.Blocks {
+			for _, in := range b.Instrs {
+				fa, ok := in.(*ssa.FieldAddr)
+				if !ok {
+					continue
+				}
+				t, f, _ := ssau.FieldOf(fa)
+				if t != tn || f != "index" {
+					continue
+				}
+				if _, isAlloc := fa.X.(*ssa.Alloc); isAlloc {
+					continue // a literal under construction
+				}
+				for _, ref := range *fa.Referrers() {
+					switch u := ref.(type) {
+					case *ssa.Store:
+						good := false
+						if c, ok := u.Val.(*ssa.Call); ok && effects.MemoInit(u) {
+							if f := c.Call.StaticCallee(); f != nil && f.Name() == "buildIndex" && len(c.Call.Args) >= 1 {
+								if ts, fs, base, ok := fieldLoadExact(c.Call.Args[0]); ok && ts == tn && fs == "symbols" && ssau.Path(base) == ssau.Path(fa.X) {
+									good = true
+								}
+							}
+						}
+						if good {
+							inits[fn] = true
+						} else {
+							okAll = false
+						}
+					case *ssa.UnOp:
+						// handing the (possibly still nil) index on to a new table of the same type is not a lookup
+						handOn := true
+						for _, r2 := range *u.Referrers() {
+							st, ok := r2.(*ssa.Store)
+							if !ok {
+								handOn = false
+								continue
+							}
+							fa2, ok := st.Addr.(*ssa.FieldAddr)
+							if !ok {
+								handOn = false
+								continue
+							}
+							if t2, f2, _ := ssau.FieldOf(fa2); t2 != tn || f2 != "index" {
+								handOn = false
+							}
+						}
+						if !handOn {
+							readers = append(readers, fn)
+						}
+					}
+				}
+			}
+		}
+	}
+	if !okAll || len(inits) == 0 {
+		return ""
+	}
+	for _, f := range readers {
+		if !inits[f] {
+			return ""
+		}
+	}
+	return "the index is built on first use from the table's own symbols (every read of the field goes through the function that builds it when nil)"
 }
